@@ -887,13 +887,17 @@ func (w *streamWriter) Close() error {
 	}
 
 	w.parent.inStream = false
-	for _, pair := range w.parent.afterStream {
+	// Detach the queue before replaying it: a queued stream object is
+	// written via OpenStream and Close, and that inner Close must not
+	// replay the queue a second time.
+	pending := w.parent.afterStream
+	w.parent.afterStream = nil
+	for _, pair := range pending {
 		err = w.parent.Put(pair.ref, pair.obj)
 		if err != nil {
 			return err
 		}
 	}
-	w.parent.afterStream = w.parent.afterStream[:0]
 
 	return nil
 }
